@@ -41,6 +41,17 @@ func (d *Device) GroupLookup() GroupLookup {
 	}
 }
 
+// MemberSide parses the member line of a network object-group
+// ("network-object host 10.1.1.1", "no network-object 10.1.1.0 255.255.255.0").
+func MemberSide(line string) (Side, bool) {
+	w := strings.Fields(strings.TrimPrefix(line, "no "))
+	if len(w) >= 2 && w[0] == "network-object" {
+		s, _ := parseSide(w[1:], false)
+		return s, s.Kind == "host" || s.Kind == "net"
+	}
+	return Side{}, false
+}
+
 func (d *Device) ACEs(name string) []ACE {
 	a := d.ACL(name)
 	if a == nil {
